@@ -205,20 +205,31 @@ pub struct RealMode {
     pub trans: Vec<(usize, usize)>,
 }
 
+/// The modes as handed to the public API by the scanning-level legs: token types concretised
+/// (ttmap), results are mapped back where `Match::token_type()` is read.
 pub fn to_scanner_modes(modes: &[RealMode]) -> Vec<ScannerMode> {
+    modes_with(modes, crate::ttmap::conc)
+}
+
+/// The modes with the token types as written (automaton-level legs: dump, DOT export)
+pub fn to_scanner_modes_raw(modes: &[RealMode]) -> Vec<ScannerMode> {
+    modes_with(modes, |t| t)
+}
+
+fn modes_with(modes: &[RealMode], f: fn(usize) -> usize) -> Vec<ScannerMode> {
     modes
         .iter()
         .map(|m| {
             ScannerMode::new(
                 &m.name,
                 m.pats.iter().map(|p| {
-                    let q = Pattern::new(p.pattern.clone(), p.tt);
+                    let q = Pattern::new(p.pattern.clone(), f(p.tt));
                     match &p.la {
                         Some((pos, l)) => q.with_lookahead(scnr::Lookahead::new(*pos, l.clone())),
                         None => q,
                     }
                 }),
-                m.trans.clone(),
+                m.trans.iter().map(|(t, m)| (f(*t), *m)).collect::<Vec<_>>(),
             )
         })
         .collect()
